@@ -67,13 +67,21 @@ Proof.
   destruct (aget l b); reflexivity.
 Qed.
 
+(* definitions::unpack: transmute::<u8, State>(delta & 0x0f) / transmute::<u8, Action>(delta >> 4), read as the
+   discriminant decoders *)
+Lemma g_unpack_eq c delta : g_unpack c delta = unpack delta.
+Proof.
+  unfold g_unpack, unpack. destruct (state_of_disc (N.land delta 15)); [|reflexivity].
+  destruct (action_of_disc (N.shiftr delta 4)); reflexivity.
+Qed.
+
 Lemma g_state_change_eq c s b : g_state_change c s b = state_change s b.
 Proof.
   unfold g_state_change, state_change. rewrite !g_state_change__eq.
   destruct (state_change_ Anywhere b) as [c0|]; try reflexivity.
   destruct (c0 =? 0).
-  - destruct (state_change_ s b); try reflexivity. destruct (unpack n); reflexivity.
-  - destruct (unpack c0); reflexivity.
+  - destruct (state_change_ s b); try reflexivity. rewrite g_unpack_eq. destruct (unpack n); reflexivity.
+  - rewrite g_unpack_eq. destruct (unpack c0); reflexivity.
 Qed.
 
 Lemma g_intermediates_eq c p : g_intermediates c p = intermediates_of p.
@@ -475,3 +483,25 @@ Qed.
 Theorem translated_parser_is_model c bs :
   g_run c parser_new [] bs = run c parser_new bs.
 Proof. rewrite g_run_eq. destruct (run c parser_new bs) as [[? ?]|]; reflexivity. Qed.
+
+(* the same from the TRANSLATED constructor: `Parser::new()` followed by `advance` for every byte *)
+Theorem translated_parser_from_new c bs :
+  g_run c (g_parser_new c) [] bs = run c parser_new bs.
+Proof. rewrite g_parser_new_eq. apply translated_parser_is_model. Qed.
+
+(* configuration: Parser::new() builds the same value in every build; without `utf8` the accumulator is the
+   `unreachable!` of AsciiParser::add, with it the utf8parse decoder and the translated callbacks *)
+Lemma g_parser_new_cfg_independent c1 c2 : g_parser_new c1 = g_parser_new c2.
+Proof. rewrite !g_parser_new_eq. reflexivity. Qed.
+
+Lemma g_char_add_no_utf8 c u b : utf8_on c = false -> g_char_add c u b = None.
+Proof. intros H. unfold g_char_add. rewrite H. reflexivity. Qed.
+
+Lemma g_char_add_utf8 c u b : utf8_on c = true ->
+  g_char_add c u b =
+  Some (fst (u8_parser_advance u b),
+        match snd (u8_parser_advance u b) with U8None => None | U8Codepoint cp => Some cp | U8Invalid => Some 65533 end).
+Proof.
+  intros H. rewrite g_char_add_eq. unfold char_add. rewrite H.
+  destruct (u8_parser_advance u b) as [u' o]. reflexivity.
+Qed.
